@@ -803,11 +803,11 @@ def main():
     emit("amd64_win_scan_step_words", int(m.group(2)))
     emit("amd64_other_scan_max", int(m.group(3)))
     emit("amd64_other_scan_step", int(m.group(4)))
-    m = one(src["amd64"], r"ptr > (0x[0-9A-Fa-f]+) && ptr < (0x[0-9A-Fa-f]+)\n", "amd64 is_non_canonical")
-    emit("amd64_noncanon_lo", intlit(m.group(1)))
-    emit("amd64_noncanon_hi", intlit(m.group(2)))
-    one(src["amd64"], r"if is_non_canonical\(instruction\) \|\| instruction == 0 \{\s*return false;", "amd64 instruction_seems_valid")
-    one(src["x86"], r"if instruction == 0 \{\s*return false;", "x86 instruction_seems_valid")
+    # (soft: is_non_canonical and every instruction_seems_valid are re-emitted expression by expression in Gen/UnwindTail.v and
+    #  proved equal to the model's use of these constants -- pre_ok_pinned_*, canon_fp_pinned; an edit breaks those proofs)
+    m = soft(src["amd64"], r"ptr > (0x[0-9A-Fa-f]+) && ptr < (0x[0-9A-Fa-f]+)\n", "amd64 is_non_canonical")
+    emit("amd64_noncanon_lo", intlit(m.group(1)) if m else 0, "" if m else EDITED)
+    emit("amd64_noncanon_hi", intlit(m.group(2)) if m else 0, "" if m else EDITED)
 
     # ---- arm / arm64
     for key, enum in (("arm", "ArmRegisterNumbers"), ("arm64", "Arm64RegisterNumbers")):
@@ -855,12 +855,12 @@ def main():
         m = soft(s, r"frame\.instruction = ip - (\d+);", key + " call adjustment")
         emit(key + "_adj", int(m.group(1)) if m else 0, "" if m else EDITED)
     one(src["arm"], r"if args\.system_info\.os != Os::Ios \{\s*return None;", "arm frame pointer: iOS only")
-    m = one(src["arm64"], r"!\((0x[0-9a-fA-F]+)\.\.=(0x[0-9a-fA-F]+)\)\.contains\(&instruction\)", "arm64 is_non_canonical")
-    emit("arm64_canon_lo", intlit(m.group(1)))
-    emit("arm64_canon_hi", intlit(m.group(2)))
-    m = one(src["arm64"], r"let apple_default_max_addr = \(1 << (\d+)\) - 1;", "arm64 apple_default_max_addr")
-    emit("arm64_apple_bits", int(m.group(1)))
-    one(src["arm64"], r"if is_non_canonical\(instruction\) \|\| instruction == 0 \{\s*return false;", "arm64 instruction_seems_valid")
+    m = soft(src["arm64"], r"!\((0x[0-9a-fA-F]+)\.\.=(0x[0-9a-fA-F]+)\)\.contains\(&instruction\)", "arm64 is_non_canonical")
+    emit("arm64_canon_lo", intlit(m.group(1)) if m else 0, "" if m else EDITED)
+    emit("arm64_canon_hi", intlit(m.group(2)) if m else 0, "" if m else EDITED)
+    # (soft: ptr_auth_strip is re-emitted statement by statement in Gen/UnwindTail.v; strip_src_is_model ties it to this constant)
+    m = soft(src["arm64"], r"let apple_default_max_addr = \(1 << (\d+)\) - 1;", "arm64 apple_default_max_addr")
+    emit("arm64_apple_bits", int(m.group(1)) if m else 0, "" if m else EDITED)
 
     # ---- mips
     s = src["mips"]
@@ -882,8 +882,8 @@ def main():
     emit("mips64_max_stack", int(m.group(1)))
     emit("mips64_pw", int(m.group(2)))
     one(s, r"let count = MAX_STACK_SIZE / POINTER_WIDTH;", "mips64 count")
-    m = one(s, r"if instruction < (0x[0-9a-fA-F]+) \{\s*return false;", "mips instruction_seems_valid")
-    emit("mips_instr_min", intlit(m.group(1)))
+    m = soft(s, r"if instruction < (0x[0-9a-fA-F]+) \{\s*return false;", "mips instruction_seems_valid")
+    emit("mips_instr_min", intlit(m.group(1)) if m else 0, "" if m else EDITED)
     m = soft(s, r"if frame\.context\.get_instruction_pointer\(\) < (\d+) \{", "mips nullish cut-off")
     emit("mips_ip_cutoff", int(m.group(1)) if m else 0, "" if m else EDITED)
     m = soft(s, r"if sp (<=|<) last_sp \{.*?let is_leaf = args\.callee_frame\.trust == FrameTrust::Context && sp == last_sp;\s*if !is_leaf \{", "mips sp progress / leaf check", re.S)
@@ -898,8 +898,7 @@ def main():
     one(src["mips"], r"Ok\(mips32\) => frame = get_caller_by_cfi\(mips32, args\)\.await,\s*Err\(mips64\) => frame = get_caller_by_cfi\(mips64, args\)\.await,\s*\}\s*\}\s*"
                      r"if frame\.is_none\(\) \{\s*match &ctx32 \{\s*Ok\(mips32\) => frame = get_caller_by_scan32\(mips32, args\)\.await,\s*"
                      r"Err\(mips64\) => frame = get_caller_by_scan64\(mips64, args\)\.await,", "mips technique cascade")
-    # ---- lib.rs: instruction_seems_valid_by_symbols prologue
-    one(src["lib"], r"let instruction = instruction\.saturating_sub\(1\);\s*// NULL pointer is definitely not valid\s*if instruction == 0 \{\s*return false;", "instruction_seems_valid_by_symbols prologue")
+    # ---- lib.rs instruction_seems_valid_by_symbols: re-emitted whole in Gen/UnwindTail.v (valid_definitions below)
 
     text = ("(* GENERATED by translate/unwind_consts.py from /repo/minidump-unwind/src/*.rs -- do not edit.\n"
             "   Register names are the big-endian base-256 value of their ASCII spelling. *)\n"
